@@ -742,3 +742,7 @@ func defaultSolver() string {
 	}
 	return "z3"
 }
+
+func init() {
+	intrinsics[vrtKey("Log")] = func(e *Exec, fn *ssa.Function, a []Value) Value { return nil }
+}
